@@ -8,7 +8,7 @@
 //!   -> {"id", "results":[distinct rendered record lists], "which":[index into results per chunking]}
 //!   chunkings of mode all2 in this order: no cut; [i] for 0<i<n; [i,j] for 0<i<j<n  (no empty chunk).
 //!   rendering: records "[f,f,..]" concatenated, fields lower-case hex; "PANIC:<msg>" if the evaluation panicked.
-//! infer:  {"id","hex"} -> {"id","dialect":[delim,quote]|null, "schema":{"has_header":b,"cols":[[name,type]..]}|{"err":..}}
+//! infer:  {"id","hex","init","max"} -> {"id","dialect":[delim,quote]|null, "schema":{"has_header":b,"cols":[[name,type]..]}|{"err":..}}
 //!         (same sequence as ReadCsv::bind: eof = short read, infer_from_sample_with_eof(..).unwrap_or_default(), decode the
 //!         sample (+ end-of-input signal at eof), infer_from_records)
 //! reader: {"id","hex","delim","quote","has_header","types":["Boolean"|"Int64"|"Float64"|"Utf8"..],"read_buf":n,"batch":n}
@@ -156,19 +156,31 @@ fn run_decode(case: &Value) -> Value {
 fn run_infer(case: &Value) -> Value {
     let data = unhex(case["hex"].as_str().unwrap());
     let r = catch_unwind(AssertUnwindSafe(|| {
-        const INFER_BUF_SIZE: usize = 4096;
-        let n = usize::min(data.len(), INFER_BUF_SIZE);
-        let sample = &data[0..n];
-        let mut records = ByteRecords::with_buffer_capacity(INFER_BUF_SIZE);
-        let eof = data.len() < INFER_BUF_SIZE;
-        let inferred = DialectOptions::infer_from_sample_with_eof(sample, eof, &mut records);
-        let dialect = inferred.unwrap_or_default();
-        records.clear_all();
-        let mut decoder = CsvDecoder::new(dialect);
-        let _ = decoder.decode(sample, &mut records);
-        if eof {
-            let _ = decoder.decode(&[], &mut records);
-        }
+        // the loop of ReadCsv::bind over a memory buffer (read_fill = copy of min(len, remaining) bytes); the two sizes
+        // are given by the case (read from read_csv.rs by vlib/c17.py)
+        let init = case["init"].as_u64().unwrap_or(4096) as usize;
+        let max = case["max"].as_u64().unwrap_or(4 * 1024 * 1024) as usize;
+        let mut buf_len = init;
+        let mut n = usize::min(data.len(), buf_len);
+        let mut records = ByteRecords::with_buffer_capacity(init);
+        let inferred = loop {
+            let sample = &data[0..n];
+            let eof = n < buf_len;
+            let inferred = DialectOptions::infer_from_sample_with_eof(sample, eof, &mut records);
+            let dialect = inferred.unwrap_or_default();
+            records.clear_all();
+            let mut decoder = CsvDecoder::new(dialect);
+            let _ = decoder.decode(sample, &mut records);
+            if eof {
+                let _ = decoder.decode(&[], &mut records);
+            }
+            if records.num_records() >= 2 || eof || buf_len >= max {
+                break inferred;
+            }
+            let len = buf_len;
+            buf_len = len * 2;
+            n += usize::min(data.len() - n, len);
+        };
         let schema = match CsvSchema::infer_from_records(&records) {
             Ok(s) => {
                 let cols: Vec<Value> = s
